@@ -27,6 +27,8 @@
  * byte access through CBMC's array theory (measured: > 16 GB); a too large block only over-approximates which
  * accesses are valid, and C19 makes no memory-safety claim.
  * Also: do-nothing warn()/warnx() (util/warnp.c prints to stderr, no effect on any property).
+ * Supporting evidence for the assumed contract (not a proof): harness/C19/native_selftest.sh runs the REAL
+ * util/asprintf.c + glibc under aws_sign.c and compares its output byte for byte with the flattened normal forms.
  */
 #include <stddef.h>
 #include <stdint.h>
@@ -64,7 +66,23 @@ aws_asprintf9(char ** ret, const char * fmt, const void * a1, const void * a2, c
 #ifdef AWS_FMT_MAYFAIL
 	/* failure-path groups: no recording at all, only "fails, or yields some fresh NUL-terminated string" */
 	if (nondet_int() || (str = malloc(AWS_ABSMAX + 1)) == NULL) {
-		*ret = NULL;	/* unspecified by the interface; glibc and the BSDs store NULL */
+		/*
+		 * *ret is unspecified after a failure.  The three things util/asprintf.c can leave there: the old
+		 * value (vsnprintf failed first), NULL (malloc failed), a pointer to a block already freed again
+		 * (the second vsnprintf failed).  A caller that frees or reads *ret after a failure is caught.
+		 */
+		int how = nondet_int();
+
+		if (how == 1)
+			*ret = NULL;
+		else if (how == 2) {
+			char * gone = malloc(1);
+
+			if (gone != NULL) {
+				free(gone);
+				*ret = gone;
+			}
+		}
 		return (-1);
 	}
 	(void)av; (void)fmt; (void)r; (void)fi; (void)ai;
